@@ -13,7 +13,12 @@ import time
 VERIF = os.path.dirname(os.path.dirname(os.path.abspath(__file__)))
 REPO = os.environ.get("VERIF_REPO", "/repo")
 BUILD = os.path.join(VERIF, "build")
-BIN = os.path.join(BUILD, "bin")
+# binaries built against the tree under test live in a directory of their own per VERIF_REPO: a run on a scratch/mutated
+# tree (seeded/runall.py, mutants/) must never exec, or leave behind, binaries another run uses (audit L2).
+# The model drivers (<d>_model) do not depend on the tree: they are built once in build/bin and linked into the others.
+BIN0 = os.path.join(BUILD, "bin")
+REPO_TAG = "" if os.path.realpath(REPO) == "/repo" else hashlib.sha1(os.path.realpath(REPO).encode()).hexdigest()[:10]
+BIN = BIN0 if not REPO_TAG else os.path.join(BUILD, "bin-" + REPO_TAG)
 COQ = os.path.join(VERIF, "coq")
 NPROC = os.cpu_count() or 4
 
@@ -263,8 +268,15 @@ def ocaml_build(drivers):
         srcs = [os.path.join(COQ, f + "o") for f in coq_files() if f.startswith(("model/", "lib/"))]
         newest_vo = max([os.path.getmtime(s) for s in srcs if os.path.exists(s)] + [0])
         os.makedirs(BIN, exist_ok=True)
+        os.makedirs(BIN0, exist_ok=True)
         log = ""
         for d in drivers:
+            if BIN != BIN0:
+                link = os.path.join(BIN, d + "_model")
+                if not os.path.islink(link):
+                    if os.path.exists(link):
+                        os.unlink(link)
+                    os.symlink(os.path.join(BIN0, d + "_model"), link)
             ml = os.path.join(ex, "m_%s.ml" % d)
             exv = os.path.join(ex, d + ".v")
             if not os.path.exists(ml) or os.path.getmtime(ml) < max(newest_vo, os.path.getmtime(exv)):
@@ -273,7 +285,7 @@ def ocaml_build(drivers):
                 rc, out = sh(["timeout", "600", "coqc"] + fl + [d + ".v"], cwd=ex)
                 if rc != 0:
                     return False, "extraction failed for %s:\n%s" % (d, out)
-            exe = os.path.join(BIN, d + "_model")
+            exe = os.path.join(BIN0, d + "_model")
             deps = [ml, os.path.join(VERIF, "ocaml", "util.ml"), os.path.join(VERIF, "ocaml", d + ".ml")]
             if os.path.exists(exe) and all(os.path.getmtime(exe) >= os.path.getmtime(x) for x in deps):
                 continue
@@ -427,21 +439,31 @@ def vm_crosscheck_file(run, driver, path, n, timeout=600):
 
 # --------------------------------------------------------------------------- Go harness
 
+def go_modfile():
+    """The go.mod used for building the harness against VERIF_REPO is GENERATED into the build directory (go build
+    -modfile): harness/go.mod (tracked, replace => /repo) is never rewritten, so a run on a scratch tree leaves nothing
+    behind.  go.sum sits next to the generated file (the toolchain derives its name from -modfile)."""
+    hd = os.path.join(VERIF, "harness")
+    d = os.path.join(BUILD, "gomod" + ("-" + REPO_TAG if REPO_TAG else ""))
+    os.makedirs(d, exist_ok=True)
+    gm = open(os.path.join(hd, "go.mod")).read()
+    gm = re.sub(r"replace github.com/robbyt/go-supervisor => \S+", "replace github.com/robbyt/go-supervisor => %s" % REPO, gm)
+    mf = os.path.join(d, "go.mod")
+    if not os.path.exists(mf) or open(mf).read() != gm:
+        open(mf, "w").write(gm)
+    sh(["cp", os.path.join(REPO, "go.sum"), os.path.join(d, "go.sum")])
+    return mf
+
+
 def go_build(cmds, race=False):
-    """Build harness commands against /repo's working tree with the verif tag."""
-    with Lock("go"):
+    """Build harness commands against VERIF_REPO's working tree with the verif tag, into BIN."""
+    with Lock("go" + ("-" + REPO_TAG if REPO_TAG else "")):
         hd = os.path.join(VERIF, "harness")
-        sh(["cp", os.path.join(REPO, "go.sum"), os.path.join(hd, "go.sum")])
-        # the replace directive must point at REPO
-        gm = open(os.path.join(hd, "go.mod")).read()
-        want = "replace github.com/robbyt/go-supervisor => %s" % REPO
-        gm2 = re.sub(r"replace github.com/robbyt/go-supervisor => \S+", want, gm)
-        if gm2 != gm:
-            open(os.path.join(hd, "go.mod"), "w").write(gm2)
+        mf = go_modfile()
         os.makedirs(BIN, exist_ok=True)
         for c in cmds:
             out_name = c + ("_race" if race else "")
-            args = [GO, "build", "-tags", "verif"]
+            args = [GO, "build", "-modfile=" + mf, "-tags", "verif"]
             if race:
                 args.append("-race")
             args += ["-o", os.path.join(BIN, out_name), "./cmd/" + c]
@@ -449,6 +471,62 @@ def go_build(cmds, race=False):
             if rc != 0:
                 return False, "go build %s failed:\n%s" % (c, out)
         return True, ""
+
+
+# --------------------------------------------------------------------------- generated Coq inputs (coq/gen/*.v)
+# Tracked files, regenerated from the tree under test by the check that owns them (C07 RunnerShape, C08 FsmTable,
+# C17 AccessTable) BEFORE its Coq build.  install_gen replaces a file atomically and only when its content changed
+# (so make does not rebuild for nothing), keeping the previous content in build/gen.orig/.  At the end of a run with
+# VERIF_REPO != /repo the previous content is put back (restore_gen, called from ./check in a `finally`): a mutated
+# tree's table never stays behind (audit L1).  With VERIF_REPO == /repo the regenerated file IS the truth for the tree
+# and stays.  Leftovers of a killed run are restored at the start of the next one.
+
+GEN_ORIG = os.path.join(BUILD, "gen.orig")
+
+
+def install_gen(name, tmp_path):
+    """Move a freshly generated file into coq/gen/<name>.  Returns True when the content changed."""
+    dst = os.path.join(COQ, "gen", name)
+    with Lock("coq"):
+        os.makedirs(os.path.dirname(dst), exist_ok=True)
+        new = open(tmp_path, "rb").read()
+        old = open(dst, "rb").read() if os.path.exists(dst) else None
+        if old == new:
+            os.unlink(tmp_path)
+            return False
+        if REPO_TAG and old is not None:
+            os.makedirs(GEN_ORIG, exist_ok=True)
+            keep = os.path.join(GEN_ORIG, name)
+            if not os.path.exists(keep):          # the first (= committed / true for /repo) content wins
+                open(keep, "wb").write(old)
+        stage = dst + ".new"
+        open(stage, "wb").write(new)
+        os.replace(stage, dst)
+        os.unlink(tmp_path)
+        return True
+
+
+def gen_tmp(name):
+    os.makedirs(os.path.join(BUILD, "gen.tmp"), exist_ok=True)
+    return os.path.join(BUILD, "gen.tmp", "%d-%s" % (os.getpid(), name))
+
+
+def restore_gen():
+    """Put back every coq/gen file a run on a scratch tree replaced (also the leftovers of a killed run)."""
+    if not os.path.isdir(GEN_ORIG):
+        return []
+    done = []
+    with Lock("coq"):
+        for name in sorted(os.listdir(GEN_ORIG)):
+            keep = os.path.join(GEN_ORIG, name)
+            dst = os.path.join(COQ, "gen", name)
+            data = open(keep, "rb").read()
+            if not os.path.exists(dst) or open(dst, "rb").read() != data:
+                open(dst + ".new", "wb").write(data)
+                os.replace(dst + ".new", dst)
+                done.append(name)
+            os.unlink(keep)
+    return done
 
 
 # --------------------------------------------------------------------------- findings / reporting
